@@ -268,12 +268,14 @@ def record_history(ctx, lc, defaults, tid, nobj, ncalls, maxlen=30):
         elif r < 0.82:
             N = len(objs[o])
             arg = [rng.randint(-2, N + 3) for _ in range(rng.randint(0, 4))]
-            form = rng.choice(["list", "tuple", "int"])
+            form = rng.choice(["list", "tuple", "int", "generator"])
             if form == "int" and arg:
                 arg = arg[:1]
                 common.call(objs[o].set_phosphosites, arg[0])
             elif form == "tuple":
                 common.call(objs[o].set_phosphosites, tuple(arg))
+            elif form == "generator":
+                common.call(objs[o].set_phosphosites, (x for x in list(arg)))
             else:
                 common.call(objs[o].set_phosphosites, list(arg))
             ev.append({"kind": "set_phosphosites", "obj": o, "arg": arg, "post": post()})
